@@ -93,7 +93,10 @@ def w_slim(ctx, rng, idx):
         single = [[[it(r[0]), it(r[1]), r[2]] for r in cell] for cell in single]
         two = [[[it(r[0]), it(r[1]), it(r[2]), it(r[3]), r[4]] for r in bond] for bond in two]
     if rng.random() < 0.2:  # reactions as tuples / with NumPy scalars, the state space as tuple or integer array
-        single = [[tuple(r) if rng.random() < 0.5 else [np.int64(r[0]), np.int64(r[1]), np.float64(r[2])] for r in cell] for cell in single]
+        st = [np.int64, np.int64, np.uint8, np.uint16, np.uint64, np.intp][int(rng.integers(0, 6))]  # (state numbers are non-negative: unsigned types are natural for them)
+        single = [[tuple(r) if rng.random() < 0.5 else [st(r[0]), st(r[1]), np.float64(r[2])] for r in cell] for cell in single]
+        if rng.random() < 0.5:
+            two = [[[st(r[0]), st(r[1]), st(r[2]), st(r[3]), r[4]] for r in bond] for bond in two]
         ss = [tuple(ss), np.array(ss), [np.int64(x) for x in ss]][int(rng.integers(0, 3))]
     call('slim.slim_mme', slim.slim_mme, ss, single, two, prop=P, tags=['cyclic' if cyc else 'open'], threshold=thr)
     if rng.random() < 0.3 and isinstance(ss, list):  # the same list objects again: other threshold, and the chain opened / closed by its owner
